@@ -31,6 +31,19 @@ impl RecTerm {
         }
     }
 
+    /// a terminal that reports exactly `size`: `pixels` need not be a multiple of `cells`, and
+    /// `pixels == 0x0` is the terminal that does not know its size in pixels (plain pty, ssh,
+    /// tmux: no ioctl pixel size, no answer to the size request), for which
+    /// `TerminalSize::pixels_per_cell()`, hence `ViewContext::new`, yields 0x0
+    pub fn with_size(size: TerminalSize, glyphs: bool) -> Self {
+        Self {
+            size,
+            caps: TerminalCaps { depth: ColorDepth::TrueColor, glyphs, kitty_keyboard: false },
+            cmds: Vec::new(),
+            written: Vec::new(),
+        }
+    }
+
     pub fn take(&mut self) -> Vec<TerminalCommand> {
         std::mem::take(&mut self.cmds)
     }
@@ -81,30 +94,63 @@ impl Terminal for RecTerm {
 
 
 /// `ViewCache` for JSON `ref` views whose entries CHANGE between calls: every `get` of a uid
-/// returns the next of three structurally different views (a leaf, a container around a tagged
-/// leaf, a two-child flex).  A frame resolves a reference once, while laying it out, and must
+/// returns the next of six structurally different views (a leaf, a container around a tagged
+/// leaf, a two-child flex, a tag at the root, a dynamic view at the root, and -- `with_chains` only --
+/// another reference).  A frame resolves a reference once, while laying it out, and must
 /// render that very view; an application may update its cache at any other moment.
 pub struct FlipCache {
     calls: std::sync::atomic::AtomicUsize,
+    /// also hand out entries that are themselves references (resolved by a cache of leaves)
+    chains: bool,
 }
 
 impl FlipCache {
     pub fn new() -> Self {
-        Self { calls: std::sync::atomic::AtomicUsize::new(0) }
+        Self { calls: std::sync::atomic::AtomicUsize::new(0), chains: false }
+    }
+
+    /// As `new`, and every sixth entry is a view that was itself deserialised from
+    /// `{"type":"ref",…}` (a cache filled with deserialised documents): a finite chain
+    /// reference -> reference -> text. Only for checks that run in a worker process.
+    pub fn with_chains() -> Self {
+        Self { calls: std::sync::atomic::AtomicUsize::new(0), chains: true }
+    }
+}
+
+/// resolves every uid to a one-line text (the far end of a reference chain)
+struct LeafCache;
+
+impl surf_n_term::view::ViewCache for LeafCache {
+    fn get(&self, _uid: i64) -> Option<surf_n_term::view::ArcView<'static>> {
+        Some(std::sync::Arc::new(surf_n_term::view::Text::from("leaf")))
     }
 }
 
 impl surf_n_term::view::ViewCache for FlipCache {
     fn get(&self, uid: i64) -> Option<surf_n_term::view::ArcView<'static>> {
-        use surf_n_term::view::{Axis, Container, Flex, Tag, Text};
+        use serde::de::DeserializeSeed;
+        use surf_n_term::view::{Axis, Container, Dynamic, Flex, Tag, Text, ViewDeserializer};
         if uid < 0 {
             return None;
         }
         let n = self.calls.fetch_add(1, std::sync::atomic::Ordering::SeqCst);
-        Some(match n % 3 {
+        // the uid shifts the starting point, so that a document with a single reference can
+        // meet every kind of entry
+        Some(match (n % 6 + 2 * (uid as u64 % 3) as usize) % 6 {
             0 => std::sync::Arc::new(Text::from("ref")),
             1 => std::sync::Arc::new(Container::new(Tag::new(7u8, Text::from("boxed")))),
-            _ => std::sync::Arc::new(Flex::new(Axis::Horizontal).add_child(Text::from("a")).add_child(Tag::new(9u8, Text::from("b")))),
+            2 => std::sync::Arc::new(Flex::new(Axis::Horizontal).add_child(Text::from("a")).add_child(Tag::new(9u8, Text::from("b")))),
+            // entries whose ROOT keeps data in its layout node: a tag, a dynamic view
+            3 => std::sync::Arc::new(Tag::new(11u8, Text::from("tagged"))),
+            4 => std::sync::Arc::new(Dynamic::new(|_ctx, _ct| Text::from("dynamic"))),
+            _ if self.chains => {
+                let de = ViewDeserializer::new(None, Some(std::sync::Arc::new(LeafCache)));
+                match de.deserialize(serde_json::json!({"type": "ref", "ref": uid})) {
+                    Ok(view) => view,
+                    Err(_) => std::sync::Arc::new(Text::from("ref")),
+                }
+            }
+            _ => std::sync::Arc::new(Text::from("ref")),
         })
     }
 }
